@@ -19,6 +19,29 @@ class MachineryError(Exception):
     pass
 
 
+# children (TLC JVMs, executors) are tracked so that a terminated check does not leave them running
+_children = set()
+
+
+def _kill_children(*_a):
+    for p in list(_children):
+        try:
+            p.kill()
+        except Exception:
+            pass
+    if _a:
+        os._exit(2)
+
+
+import atexit, signal
+atexit.register(_kill_children)
+try:
+    signal.signal(signal.SIGTERM, _kill_children)
+    signal.signal(signal.SIGINT, _kill_children)
+except ValueError:
+    pass
+
+
 def die(msg, code=2):
     print('MACHINERY-ERROR: ' + msg)
     sys.stdout.flush()
@@ -94,8 +117,14 @@ def tlc(module, cfg, tag, workers=None, env=None, simulate=None, timeout=3000, h
         e.update({k: str(v) for k, v in env.items()})
     res = TlcResult()
     t0 = time.time()
+    cmd[0:2] = []          # the JVM is killed by us on timeout (no wrapper process that would orphan it)
     p = subprocess.Popen(cmd, cwd=SPEC, stdout=subprocess.PIPE, stderr=subprocess.STDOUT, text=True, env=e,
                          bufsize=1 << 20)
+    _children.add(p)
+    import threading
+    killer = threading.Timer(timeout, p.kill)
+    killer.daemon = True
+    killer.start()
     tail = collections.deque(maxlen=60)
     viol = []
     inviol = False
@@ -121,6 +150,8 @@ def tlc(module, cfg, tag, workers=None, env=None, simulate=None, timeout=3000, h
         if inviol and len(viol) < 80:
             viol.append(line)
     p.wait()
+    killer.cancel()
+    _children.discard(p)
     res.rc = p.returncode
     res.wall = time.time() - t0
     res.raw_tail = '\n'.join(tail)
